@@ -367,7 +367,12 @@ class BufferedFile(ClosingContextManager):
 
         :returns: file position (`number <int>` of bytes).
         """
-        return self._pos
+        # account for data still in the write buffer: it will land at the
+        # current position, or at the end of the file in append mode
+        pending = self._wbuffer.tell()
+        if pending > 0 and (self._flags & self.FLAG_APPEND):
+            return self._size + pending
+        return self._pos + pending
 
     def write(self, data):
         """
